@@ -247,7 +247,7 @@ def main(run):
         if k in seen:
             continue
         seen.add(k)
-        run.oblige("total_" + key_of(rec), False, "totality")
+        run.refuted.append("total_" + key_of(rec))
         run.find(k, f"{rec[0]} on {rec[1]} raises {err}", {"recipe": rec[:4], "error": err})
     # ---- triage by one vm_compute, then kernel-checked theorems for the passing ones
     res, out = run.coq_bools("C05_triage.v", HEADER, items, timeout=900)
